@@ -21,6 +21,9 @@ _PURE = {
     'logical_or', 'logical_and', 'logical_not', 'logical_xor', 'min', 'max', 'amin', 'amax', 'argmin', 'argmax',
     'unique', 'sort', 'argsort', 'cumsum', 'diff', 'isclose', 'allclose', 'abs', 'floor', 'ceil', 'round',
     'minimum', 'maximum', 'prod', 'mean', 'empty', 'full', 'linspace', 'ix_', 'diag', 'outer', 'kron',
+    'left_shift', 'right_shift', 'bitwise_and', 'bitwise_or', 'bitwise_xor', 'packbits', 'unpackbits', 'power',
+    'uint8', 'uint16', 'uint32', 'uint64', 'int8', 'int16', 'int32', 'int64', 'uint', 'int_', 'float64', 'bool_',
+    'flatnonzero', 'searchsorted', 'multiply', 'subtract', 'divide', 'floor_divide', 'remainder', 'sign', 'square',
 }
 
 
